@@ -13,7 +13,10 @@ def lowerAscii (s : Str) : Str := s.map fun c => if 65 ≤ c ∧ c ≤ 90 then c
 
 /-- filter run <scheme> <tiebreak|-> <exact> <algo> <ext> <case> <literal> <sort> <tac> <nth|-> <withnth|->
       <delim> <tail> <hdr> <query> <lines> => <exit> <records> -/
-def run (ctx : Algo.Ctx) (op : String) (args impl : List String) : Outcome :=
+def run (ctx : Algo.Ctx) (op0 : String) (args impl : List String) : Outcome :=
+  -- `proc1`: the same pipeline started with --select-1 --exit-0 --query instead of --filter on an input
+  -- with at most one match: it must print and exit exactly as filter mode does
+  let op := if op0 == "proc1" then "proc" else op0
   match op, args with
   | "run", [_argvSeed, sch, tie, exact, algo, ext, cm, literal, sort, tac, nth, withnth, delim, tail, hdr, q, lines] =>
     let cfg : Cfg := { U := ctx.unicode, sch := Algo.scheme sch, norm := ctx.norm }
@@ -120,7 +123,7 @@ def run (ctx : Algo.Ctx) (op : String) (args impl : List String) : Outcome :=
             else specOk
         | _ => specFail "[C14] fzf crashed in filter mode"
       { model, spec,
-        tags := ["proc"] ++ (if b read0 then ["read0"] else []) ++ (if b print0 then ["print0"] else []) ++ (if b printq then ["printq"] else []) ++
+        tags := ["proc"] ++ (if op0 == "proc1" then ["select1-exit0"] else []) ++ (if b read0 then ["read0"] else []) ++ (if b print0 then ["print0"] else []) ++ (if b printq then ["printq"] else []) ++
           (if b ansi then ["ansi"] else []) ++ (if withnth != "-" then ["withnth"] else []) ++ (if recs.length > 100 then ["multichunk"] else []) ++
           (if out.length ≥ 1 ∧ out.length < recs.length then ["nt"] else []) }
   | _, _ => { model := "bad-op" }
